@@ -216,6 +216,12 @@ def purity(ctx: Ctx) -> None:
     oks = matches("$o[$k] = $v", st, k=k, v=v) if False else (isinstance(st.targets[0].value, ast.Name) and st.targets[0].value.id == "output" and isinstance(st.targets[0].slice, ast.Name)
                                                                   and st.targets[0].slice.id == k and isinstance(st.value, ast.Name) and st.value.id == v)
     oks = oks and isinstance(l.iter.func.value, ast.Name) and l.iter.func.value.id == "source"
+    # the loop's key / value names must still hold the source's key / value at the store: not re-bound inside the loop
+    rebound_kv = sorted({n.id for st_ in l.body for n in walk_no_nested(st_) if isinstance(n, ast.Name) and isinstance(n.ctx, (ast.Store, ast.Del)) and n.id in (k, v)})
+    if rebound_kv:
+        ctx.bad("R-PURE", cp, "each property is copied under its own key with its own (immutable str) value", f"{rebound_kv} (the source's key / value) re-bound inside the loop before the store: "
+                "the property is stored under another key (or with another value) than the source has it", node=st)
+        oks = True  # reported above with the precise reason
     ctx.expect("R-PURE", cp, "each property is copied under its own key with its own (immutable str) value", oks, src(st), f"{src(st)}", node=st)
     fs = facts(ctx, cp, st)
     sc = p.func(f"{CV}:_should_copy_property")
